@@ -267,11 +267,51 @@ func (e *Engine) symNative(name string, args []value) value {
 		r := args[0].(sv)
 		w := r.t.S.Width()
 		ascii := tt.BVCmp("bvult", r.t, tt.BVConst(w, 0x80))
-		if !e.fork(ascii) {
-			panic(unsupported{name + " on a non-ASCII symbolic rune"})
-		}
 		in := func(lo, hi rune) *Term {
 			return tt.And(tt.BVCmp("bvule", tt.BVConst(w, uint64(lo)), r.t), tt.BVCmp("bvule", r.t, tt.BVConst(w, uint64(hi))))
+		}
+		if !e.fork(ascii) {
+			// beyond ASCII: the predicate is membership in the real range table
+			// of package unicode (the tables of the Go release the engine is
+			// built with), as a disjunction of ranges with their strides
+			if !e.fork(tt.BVCmp("bvult", r.t, tt.BVConst(w, 0x110000))) {
+				panic(unsupported{name + " on a symbolic rune outside 0..0x10FFFF"})
+			}
+			var tab *unicode.RangeTable
+			switch name {
+			case "unicode.IsLetter":
+				tab = unicode.Letter
+			case "unicode.IsDigit":
+				tab = unicode.Digit
+			case "unicode.IsUpper":
+				tab = unicode.Upper
+			case "unicode.IsLower":
+				tab = unicode.Lower
+			case "unicode.IsSpace":
+				tab = unicode.White_Space
+			}
+			f := tt.Bool(false)
+			add := func(lo, hi, stride uint32) {
+				if lo < 0x80 {
+					if hi < 0x80 {
+						return
+					}
+					lo += (0x80 - lo + stride - 1) / stride * stride
+				}
+				c := in(rune(lo), rune(hi))
+				if stride > 1 && lo != hi {
+					d := tt.BVBin("bvsub", r.t, tt.BVConst(w, uint64(lo)))
+					c = tt.And(c, tt.Eq(tt.BVBin("bvurem", d, tt.BVConst(w, uint64(stride))), tt.BVConst(w, 0)))
+				}
+				f = tt.Or(f, c)
+			}
+			for _, x := range tab.R16 {
+				add(uint32(x.Lo), uint32(x.Hi), uint32(x.Stride))
+			}
+			for _, x := range tab.R32 {
+				add(x.Lo, x.Hi, x.Stride)
+			}
+			return e.fromTerm(f, types.Bool)
 		}
 		var f *Term
 		switch name {
